@@ -463,6 +463,7 @@ def run_stubapp(case):
 
 def run_concurrent(case):
     fe, ops, clock, delay = case['fe'], case['ops'], case['clock'], case['delay']
+    cancel = case.get('cancel')
 
     async def body(loop, box):
         v = box['v']
@@ -477,7 +478,13 @@ def run_concurrent(case):
                 for p, op in zip(prefixes, ops):
                     if op == 'unregister':
                         s.app.set_interest_filter(p, lambda *a, **k: None)
-            holder['r'] = await asyncio.gather(*[s.call(op, p, with_handler=False) for op, p in zip(ops, prefixes)])
+            tasks = [asyncio.ensure_future(s.call(op, p, with_handler=False)) for op, p in zip(ops, prefixes)]
+            if cancel is not None:
+                # every call has started: the first holds the semaphore with its command unanswered, the others are queued
+                # behind it; one of the queued callers gives up (task.cancel(), as wait_for does when it expires)
+                await asyncio.sleep(0)
+                tasks[cancel].cancel()
+            holder['r'] = await asyncio.gather(*tasks, return_exceptions=True)
         esc = await s.connected(inside)
         if esc is not None:
             v.append(('C17:main-loop-raises', f'main_loop raised {type(esc).__name__}: {esc} @ {where(esc)}'))
@@ -485,11 +492,19 @@ def run_concurrent(case):
             return
         cmds = s.face.commands
         seen = sorted((c['verb'], c.get('prefix')) for c in cmds)
-        want = sorted((op, Name.to_str(Name.normalize(p))) for op, p in zip(ops, prefixes))
-        if seen != want or s.face.other:
-            v.append(('C17:exactly-one-command', f'{len(ops)} concurrent calls produced commands {seen}, expected {want}'))
-        for (op, p, reply, outcome) in zip(ops, prefixes, case['replies'], holder['r']):
-            v.extend(post_result(fe, op, reply, outcome))
+        live = [i for i in range(len(ops)) if i != cancel]
+        want = sorted((ops[i], Name.to_str(Name.normalize(prefixes[i]))) for i in live)
+        # the caller that gave up owes no command (it may have sent one if it was no longer queued when cancelled)
+        want_all = sorted((op, Name.to_str(Name.normalize(p))) for op, p in zip(ops, prefixes))
+        if (seen != want and seen != want_all) or s.face.other:
+            v.append(('C17:exactly-one-command', f'{len(ops)} concurrent calls{"" if cancel is None else f" (call {cancel} cancelled while queued)"} '
+                                                 f'produced commands {seen}, expected {want}'))
+        for i in live:
+            outcome = holder['r'][i]
+            if isinstance(outcome, BaseException):
+                v.append(('C17:call-raises', f'{ops[i]}({prefixes[i]}) raised {type(outcome).__name__}: {outcome}'))
+                continue
+            v.extend(post_result(fe, ops[i], case['replies'][i], outcome))
         for c in cmds:
             v.extend(post_command_format(fe, c, c['verb'], c.get('prefix') or '/'))
         stamps = [c.get('timestamp') for c in cmds if c.get('timestamp') is not None]
@@ -782,6 +797,15 @@ def cases(tier, rng):
                                 pool = ('ok', '400', '404', 'nack-150', 'timeout', 'ok-text', '409')
                                 reps = [pool[(i * 3 + n) % len(pool)] for i in range(n)]
                             yield dict(family='concurrent', fe=fe, ops=ops, clock=clock, delay=delay, replies=reps)
+    # 2b. one of the queued callers gives up while the first command is still unanswered: the rest still go one at a time
+    for fe in ('v2', 'legacy'):
+        for n in (3, 4, 6) if tier == 'quick' else (3, 4, 5, 6, 9, 12):
+            for mix in ('register', 'unregister', 'mixed', 'mixed2'):
+                for cancel in sorted({1, 2, n - 1}):
+                    for delay in (0.2, 5):
+                        ops = [mix if not mix.startswith('mixed') else ('register', 'unregister')[(i + (mix == 'mixed2')) % 2] for i in range(n)]
+                        for reps in (['ok'] * n, ['timeout'] + ['ok'] * (n - 1)):
+                            yield dict(family='concurrent', fe=fe, ops=ops, clock='virtual', delay=delay, replies=reps, cancel=cancel)
     # 3. routes declared before / while connected, two connections
     outcomes = ('ok', '400', 'nack-150', 'timeout')
     for fe in ('v2', 'legacy'):
